@@ -112,6 +112,11 @@ func execR6(c R6Case, hs []handler.Handler6) (res core.Result) {
 		res.Classes = []string{"abandoned:panic"}
 		return
 	}
+	return verifyReply6(dgram, sent, peer, boundIdx, c.RecvIf, len(hs) == 0)
+}
+
+// verifyReply6 is the C12 oracle for one datagram and what the server sent for it
+func verifyReply6(dgram []byte, sent []server.Sent, peer *net.UDPAddr, boundIdx, recvIf int, emptyChain bool) (res core.Result) {
 	// reference classification
 	d, perr := dhcpv6.FromBytes(dgram)
 	class := "answerable"
@@ -159,7 +164,7 @@ func execR6(c R6Case, hs []handler.Handler6) (res core.Result) {
 		return
 	}
 	if len(sent) == 0 {
-		if len(hs) == 0 {
+		if emptyChain {
 			res.Viol = core.Violate("C12/request-not-answered", "a type %d message with client id (relay depth %d) got no reply", inner.MessageType, depth)
 		}
 		return
@@ -171,7 +176,7 @@ func execR6(c R6Case, hs []handler.Handler6) (res core.Result) {
 		return
 	}
 	if peer.IP.IsLinkLocalUnicast() {
-		want := c.RecvIf
+		want := recvIf
 		if boundIdx != 0 {
 			want = boundIdx
 		}
@@ -213,7 +218,7 @@ func execR6(c R6Case, hs []handler.Handler6) (res core.Result) {
 	if uint8(inner.MessageType) == gen.M6Solicit && !rapidCommit {
 		wantType = gen.M6Advertise
 	}
-	if len(hs) == 0 && b[0] != wantType {
+	if b[0] != wantType {
 		res.Viol = core.Violate("C12/wrong-reply-type", "type %d (rapid commit %v) answered with type %d, want %d", inner.MessageType, rapidCommit, b[0], wantType)
 		return
 	}
